@@ -68,6 +68,8 @@ static void prior_fill(rf_wavheader_t *h, int kind)
 	else { memset(h, 0, sizeof(*h)); rf_wavheader_init(h, 48000, 2, RF_WAVHEADER_FLOAT); rf_wavheader_set_num_frames(h, 77); }
 }
 static uint32_t frames0_of(int prior, uint32_t frames) { return prior == 1 ? 0xffffffffu : (frames * 7u + 3u) % 5000u; }
+static int force_frames0_set;
+static uint32_t force_frames0;
 static void init_case(int prior, int f, unsigned ch, uint32_t rate, uint32_t frames)
 {
 	rf_wavheader_t *h = malloc(sizeof(*h)), *d = malloc(sizeof(*d));
@@ -75,8 +77,8 @@ static void init_case(int prior, int f, unsigned ch, uint32_t rate, uint32_t fra
 	prior_fill(h, prior);
 	rf_wavheader_init(h, rate, ch, (rf_wavheader_format_t)f);
 	/* prior kinds 0 and 2: the frame count is set twice (a first, different count, then the final one) */
-	uint32_t frames0 = frames0_of(prior, frames);
-	if (frames0 != 0xffffffffu)
+	uint32_t frames0 = force_frames0_set ? force_frames0 : frames0_of(prior, frames);
+	if (force_frames0_set || frames0 != 0xffffffffu)
 		rf_wavheader_set_num_frames(h, frames0);
 	rf_wavheader_set_num_frames(h, frames);
 	int val = rf_wavheader_validate(h);
@@ -92,8 +94,8 @@ static void init_case(int prior, int f, unsigned ch, uint32_t rate, uint32_t fra
 	}
 	printf("{\"e\":\"Init\",\"prior\":%d,\"f\":%d,\"ch\":%u,", prior, f, ch);
 	ju32("rate", rate); printf(",");
-	ju32("frames", frames); printf(",\"twice\":%d,", frames0 != 0xffffffffu);
-	ju32("frames0", frames0 == 0xffffffffu ? 0 : frames0); printf(",");
+	ju32("frames", frames); printf(",\"twice\":%d,", force_frames0_set || frames0 != 0xffffffffu);
+	ju32("frames0", (!force_frames0_set && frames0 == 0xffffffffu) ? 0 : frames0); printf(",");
 	jhdr("h", h);
 	printf(",\"val\":%d,\"enclen\":%d,", val, el);
 	jbytes("enc", buf, el > 0 && el <= 128 ? el : 0);
@@ -119,6 +121,20 @@ static void gen_init(int thorough)
 						init_case(prior, f, chs[c], rates[r], fr[k]);
 					}
 				}
+	/* a first frame count whose sizes do not fit 32 bits (out of scope for that call), then one that is in scope: the second
+	 * call must describe the file whatever the first one left behind */
+	force_frames0_set = 1;
+	for (int f = 0; f < 3; f++)
+		for (int c = 0; c < 3; c++) {
+			unsigned ba = chs[c] * (f == 0 ? 2 : 4);
+			uint32_t firsts[] = { 0x7fffffffu, 0xffffffffu, 0xffffffffu / ba, 0xffffffffu / ba + 1, (0xffffffffu - 20) / ba, 0x80000000u / ba, 0x80000000u };
+			for (unsigned k = 0; k < sizeof(firsts) / sizeof(firsts[0]); k++) {
+				force_frames0 = firsts[k];
+				init_case(0, f, chs[c], 44100, 1000);
+				init_case(2, f, chs[c], 8000, (k & 1) ? 0 : 7);
+			}
+		}
+	force_frames0_set = 0;
 	if (thorough)
 		for (int i = 0; i < 3000; i++) {
 			unsigned ch = 1 + drv_below(300), f = drv_below(3);
